@@ -83,7 +83,13 @@ def wl(ctx, config):
             else:
                 ctx.check(r2.ret == 0, "halfagg_aggregate:short_buffer_accepted", "n=%d L=%d" % (k, L), config)
         if k == 0: 
-            vcase(ctx, config, [], [], [], b32(1), "n0:s_nonzero"); vcase(ctx, config, [], [], [], b'', "n0:empty"); continue
+            vcase(ctx, config, [], [], [], b32(1), "n0:s_nonzero"); vcase(ctx, config, [], [], [], b'', "n0:empty")
+            # the empty aggregate is valid only as 32 zero bytes: every re-encoding of s = 0 (n, 2n mod 2^256 does not fit) and every
+            # other boundary scalar must be rejected
+            for sv in (n, n + 1, n - 1, 2**256 - 1, 2**255, 2**256 - n, 2):
+                vcase(ctx, config, [], [], [], b32(sv), "n0:s_boundary")
+            vcase(ctx, config, [], [], [], bytes(31), "n0:len31"); vcase(ctx, config, [], [], [], bytes(33), "n0:len33"); vcase(ctx, config, [], [], [], bytes(64), "n0:len64")
+            continue
         # mutations
         nm = 14 if k <= 8 else 5
         for _ in range(nm):
